@@ -60,9 +60,9 @@ const (
 	_doubleTwoByteTag   = byte(0x5e)
 	_doubleFourByteTag  = byte(0x5f)
 	_doubleOneByteMin   = -0x80   // -128
-	_doubleOneByteMax   = -0x7f   // 127
+	_doubleOneByteMax   = 0x7f    // 127
 	_doubleTwoByteMin   = -0x8000 // -32768.0
-	_doubleTwoByteMax   = -0x7fff // 32767.0
+	_doubleTwoByteMax   = 0x7fff  // 32767.0
 )
 
 func doubleTag(tag byte) bool {
